@@ -18,10 +18,15 @@ for d in sorted(glob.glob(os.path.join(V, 'seeded', '*-*'))):
             caught.append(c + (' (proof/correspondence only)' if nf else ''))
     after = m.get('after_strengthening')
     title = (m.get('title') or m.get('what_breaks') or '')[:150].replace('|', '/').replace('\n', ' ')
-    rows.append((os.path.basename(d), title, ', '.join(caught) or 'missed at first', '; '.join('%s: %s' % kv for kv in after.items()) if isinstance(after, dict) else (after or '')))
+    fin = m.get('final_rerun', {})
+    fdet = fin.get('result', {}).get('detections', {})
+    fcaught = ', '.join(c for c, x in sorted(fdet.items()) if x.get('exit') == 1)
+    if fin:
+        fcaught = (fcaught or 'NOT CAUGHT') + ' (verif %s, repo %s)' % (fin.get('verif_commit'), fin.get('repo_commit'))
+    rows.append((os.path.basename(d), title, ', '.join(caught) or 'missed at first', '; '.join('%s: %s' % kv for kv in after.items()) if isinstance(after, dict) else (after or ''), fcaught))
 out = ['# Seeded changes (independent agents; each confirmed: builds, suite unchanged, demo fails with / passes without)', '',
-       '| id | change | caught by (quick tier, first run) | after strengthening |', '|---|---|---|---|']
+       '| id | change | caught by (quick tier, first run) | after strengthening | final re-run of every seed against the finished checks |', '|---|---|---|---|---|']
 for r in rows:
-    out.append('| %s | %s | %s | %s |' % r)
+    out.append('| %s | %s | %s | %s | %s |' % r)
 open(os.path.join(V, 'design.d', 'SEEDED.md'), 'w').write('\n'.join(out) + '\n')
 print('\n'.join(out))
